@@ -88,38 +88,51 @@ Theorem C11_parsed_lengths : forall c ecok body k rest fuel l s rest',
 Proof. exact parsed_lengths. Qed.
 Print Assumptions C11_parsed_lengths.
 
-(* The bit-flip formulation, RELATIVE TO the cryptographic hypothesis [flip_sensitive]: the
-   signature check accepts only (key, hash, message, value) tuples that the key holder produced —
-   here: the certifications [uids] and bindings [subs] of the unmodified key under primary key k0.
-   Then, whatever is done to the packets (any number of changed bits, anywhere), an identity that
-   is still listed is, in key body, user ID, hashed area, signature header and signature value,
-   bit for bit one of the original certified identities; likewise for subkeys.  So a changed bit in
-   any of those regions of an item makes that item disappear (or the key be rejected). *)
-Theorem C11_bitflip_identity : forall c P k0 uids subs evs e,
-  flip_sensitive P (genuine_of k0 uids subs) ->
+(* The bit-flip formulation, RELATIVE TO the named cryptographic hypothesis
+     flip_sensitive P k0 genuine := forall c msg s, sig_accepted c P k0 msg s -> genuine (sc_hash s) msg (sig_values s)
+   "whatever the signature check accepts under the honest primary key k0 was signed by its holder",
+   where the holder signed exactly the certifications [uids] and bindings [subs] of the unmodified
+   key (genuine_of).  Then, whatever is done to the packets BEHIND the (unchanged) primary key — any
+   number of changed bits in user IDs, subkeys, signatures, added or removed packets — an identity
+   that is still listed is, in user ID, hashed area and signature header, bit for bit one of the
+   original certified identities; likewise a listed subkey equals an original bound subkey in key
+   body, hashed area and header.  With [strong = true] (the hypothesis then also says that only
+   signature VALUES the holder produced verify: strong unforgeability, true of RSA PKCS#1 v1.5 and
+   Ed25519, not of DSA / ECDSA where (r, -s) verifies too) the integers of the signature value are
+   the original ones as well.  A changed bit in any of those regions of an item therefore makes the
+   item disappear or the key be rejected.  Changes of the primary key itself are outside these two
+   theorems (no standard assumption speaks about verification under a related key); they are
+   covered by the exhaustive single-bit sweep of the check. *)
+Theorem C11_bitflip_identity : forall strong c P k0 uids subs evs e,
+  flip_sensitive P k0 (genuine_of strong k0 uids subs) ->
   sane_key k0 -> Forall (fun x => lenN (su_uid x) < 4294967296 /\ sane_sig (su_sig x)) uids ->
   read_entity c P evs = Ok e ->
-  sane_key (e_primary e) ->
+  e_primary e = k0 ->
   forall i, In i (e_ids e) -> lenN (id_name i) < 4294967296 -> sane_sig (id_self i) ->
-  exists x, In x uids /\
-    key_body (e_primary e) = key_body k0 /\ id_name i = su_uid x /\
+  exists x, In x uids /\ id_name i = su_uid x /\
     sc_hashed (id_self i) = sc_hashed (su_sig x) /\ sig_header (id_self i) = sig_header (su_sig x) /\
-    sc_mpis (id_self i) = sc_mpis (su_sig x).
+    (strong = true -> sig_values (id_self i) = sig_values (su_sig x)).
 Proof. exact bitflip_identity. Qed.
 Print Assumptions C11_bitflip_identity.
 
-Theorem C11_bitflip_subkey : forall c P k0 uids subs evs e,
-  flip_sensitive P (genuine_of k0 uids subs) ->
+Theorem C11_bitflip_subkey : forall strong c P k0 uids subs evs e,
+  flip_sensitive P k0 (genuine_of strong k0 uids subs) ->
   sane_key k0 -> Forall (fun x => sane_key (ss_key x) /\ sane_sig (ss_sig x)) subs ->
   read_entity c P evs = Ok e ->
-  sane_key (e_primary e) ->
+  e_primary e = k0 ->
   forall sk, In sk (e_subkeys e) -> sane_key (sk_key sk) -> sane_sig (sk_sig sk) ->
-  exists x, In x subs /\
-    key_body (e_primary e) = key_body k0 /\ key_body (sk_key sk) = key_body (ss_key x) /\
+  exists x, In x subs /\ key_body (sk_key sk) = key_body (ss_key x) /\
     sc_hashed (sk_sig sk) = sc_hashed (ss_sig x) /\ sig_header (sk_sig sk) = sig_header (ss_sig x) /\
-    sc_mpis (sk_sig sk) = sc_mpis (ss_sig x).
+    (strong = true -> sig_values (sk_sig sk) = sig_values (ss_sig x)).
 Proof. exact bitflip_subkey. Qed.
 Print Assumptions C11_bitflip_subkey.
+
+(* the hypothesis is satisfiable together with an accepted key *)
+Theorem C11_flip_sensitive_example :
+  flip_sensitive ex_strict ex_key (genuine_of false ex_key [mksu (bs "a") (s_core ex_sig)] []) /\
+  is_ok (read_entity fixed ex_strict ex_evs) = true.
+Proof. exact ex_flip_sensitive. Qed.
+Print Assumptions C11_flip_sensitive_example.
 
 (* the fuel of the packet loop and of the (nested) signature parser is never exhausted: the result
    does not depend on it beyond the length of the input, and "fuel" is never the reported error *)
